@@ -1387,6 +1387,11 @@ impl RaftLogManager {
         }
         if i > 0 {
             self.logs = self.logs.split_off(i);
+            if self.logs.is_empty() {
+                //the open file went as well (a snapshot that starts behind the end of the local log):
+                //the next write has to open a new file instead of talking to the closed actor
+                self.current_log_actor = None;
+            }
             let save_logs = self.logs.iter().map(|e| e.log_range.clone()).collect();
             let index_request = RaftIndexRequest::SaveLogs(save_logs);
             self.index_manager.as_ref().unwrap().do_send(index_request);
